@@ -844,6 +844,9 @@ func (m *endpointManager) resolveWorkloadEndpoints() {
 				m.activeWlEndpoints[id] = workload
 				m.activeWlIfaceNameToID[workload.Name] = id
 				delete(m.pendingWlEpUpdates, id)
+				// The endpoint is active now; drop any copy left from when it was shadowed,
+				// otherwise a later removal of another endpoint could re-promote stale data.
+				delete(m.shadowedWlEndpoints, id)
 
 				if m.isQoSBandwidthSupported() {
 					logCxt.Info("Updating QoS bandwidth state if changed")
@@ -867,6 +870,12 @@ func (m *endpointManager) resolveWorkloadEndpoints() {
 					for sId, sWorkload := range m.shadowedWlEndpoints {
 						logCxt.Infof("Old workload %v", oldWorkload)
 						logCxt.Infof("Shadowed workload %v", sWorkload)
+						if _, pending := m.pendingWlEpUpdates[sId]; pending {
+							// This endpoint has its own update or removal queued in this batch;
+							// that is newer than the shadowed copy and will be resolved when it is
+							// processed, so it must not be overwritten by a promotion.
+							continue
+						}
 						if sWorkload.Name == oldWorkload.Name {
 							if bestShadowedId.EndpointId == "" || wlIdsAscending(&sId, &bestShadowedId) {
 								bestShadowedId = sId
